@@ -48,6 +48,17 @@ def jCall (c : Call) : Json :=
 
 def jEOut (o : EOut) : Json := Json.mkObj [("calls", jList jCall o.calls), ("ret", jRet o.ret)]
 
+def jCb (c : Cb) : Json :=
+  Json.arr #[Json.str c.event, jOpt jNat c.sender, jNat c.id, jOpt jNat c.owner, Json.bool c.last]
+
+def jREv : REv → Json
+  | .progress v m => Json.arr #[Json.str "p", jInt v, jInt m]
+  | .complete => Json.arr #[Json.str "c"]
+
+/-- kinds of a list of events as one string ("p", "pc", "") -/
+def kinds (l : List REv) : String :=
+  String.join (l.map fun | .progress _ _ => "p" | .complete => "c")
+
 def asROp (j : Json) : R ROp := do
   let k ← getStr j "k"
   match k with
@@ -66,12 +77,17 @@ def runC19 (op : String) (j : Json) : R Json := do
   match op with
   | "emitter" =>
     let ops ← fld j "ops" >>= asList asEOp
-    -- `spec` is the specification for every history (`emit_outcomes_any_nesting`); callbacks behave
-    -- as the harness's recording stubs (`stubResult`)
+    -- `spec` is the specification for every history (`emit_outcomes_forward`: registered callbacks read off
+    -- the history by `registeredFwd`, silencing by `silencedAfter`); callbacks behave as the harness's
+    -- recording stubs (`stubResult`).  `reg` = the callback list at the end (`state_registered`), `rets` =
+    -- what each connect returned (`connect_returns_registered`)
     pure (Json.mkObj [("model", jList jEOut (erun stubResult EState.init ops)),
-                      ("spec", jList jEOut (emitsSpecG stubResult [] ops)),
+                      ("spec", jList jEOut (emitsSpecF stubResult [] ops)),
                       ("silent", Json.bool (erunState stubResult EState.init ops).silent),
-                      ("silent_spec", Json.bool (silencedAfter ops))])
+                      ("silent_spec", Json.bool (silencedAfter ops)),
+                      ("reg", jList jCb (erunState stubResult EState.init ops).cbs),
+                      ("reg_spec", jList jCb (registeredFwd ops)),
+                      ("rets", jList (jOpt jNat) (connectRets ops))])
   | "connect_name" =>
     -- event name a `connect(func)` derives from `func.__name__` (null = ValueError)
     let names ← fld j "names" >>= asList asStr
@@ -79,14 +95,20 @@ def runC19 (op : String) (j : Json) : R Json := do
   | "reporter" =>
     let ops ← fld j "ops" >>= asList asROp
     let tr := rrun RState.init ops
+    let msgs := hasFld j "msgs"
     let implOK ← if hasFld j "impl" then do
         let obs ← fld j "impl" >>= asList asRObs
         pure (Json.bool (announceOK [] obs))
       else pure Json.null
     pure (Json.mkObj [
       ("model", jList (fun (t : RState × ROp × RState × ROut) =>
-          Json.mkObj [("progress", jOpt jPairI t.2.2.2.progress), ("complete", Json.bool t.2.2.2.complete),
-                      ("value", jInt t.2.2.1.value), ("max", jInt t.2.2.1.max)]) tr),
+          Json.mkObj ([("progress", jOpt jPairI t.2.2.2.progress), ("complete", Json.bool t.2.2.2.complete),
+                      ("value", jInt t.2.2.1.value), ("max", jInt t.2.2.1.max),
+                      ("ic", Json.bool (isComplete t.2.2.1)),
+                      ("fr", jOpt jPairI (progressFrac t.2.2.1)),
+                      ("ev", Json.str (kinds t.2.2.2.events))] ++
+                     -- the messages of a reporter that has them (`msgs` in the query)
+                     (if msgs then [("printed", jList jREv t.2.2.2.printed)] else []))) tr),
       ("model_spec", Json.bool (announceOK [] (tr.map obsOf))),
       ("impl_spec", implOK)])
   | _ => .error s!"C19: unknown op {op}"
